@@ -200,7 +200,8 @@ AddSelfSize ==
 
 (* "The optional <upcast> is used for an enum which should be sent over the network as a different *)
 (* type ... an integer type of larger size"                                                        *)
-Upcasts(d) == {""} \cup {t \in {"u16", "u32", "u64"} : Width(t) > Width(defs[d].base)}
+Upcasts(d) == {""} \cup (IF defs[d].kind = "enum"
+                          THEN {t \in {"u16", "u32", "u64"} : Width(t) > Width(defs[d].base)} ELSE {})
 AddDefField(kind) ==
     /\ CanAdd
     /\ \E d \in {x \in 1..Len(defs) : defs[x].kind = kind} : \E up \in Upcasts(d) :
